@@ -486,7 +486,12 @@ class LibMixin:
                 return [(st, VBuiltin(f"frozen.{name}", v))]
             return [(st, VBuiltin(f"const.{name}", v))]
         if isinstance(v, VBuiltin) and v.self is None:
-            return [(st, VBuiltin(f"{v.name}.{name}"))]
+            full = f"{v.name}.{name}"
+            if full in self.exc_h:
+                return [(st, VExcClass(full))]
+            if name in self.exc_h and name[:1].isupper():
+                return [(st, VExcClass(name))]
+            return [(st, VBuiltin(full))]
         if isinstance(v, VClass):
             if name == "__name__":
                 return [(st, const(v.name))]
@@ -732,6 +737,17 @@ class LibMixin:
             chi = z3.simplify(hi_t) if hi_t is not None else None
             if (clo is None or z3.is_int_value(clo)) and (chi is None or z3.is_int_value(chi)):
                 return [(st, VTuple(tuple(items[(clo.as_long() if clo is not None else None) : (chi.as_long() if chi is not None else None)])))]
+        if isinstance(obj, (VU, VOpaque)):
+            out = []
+            for s, ov in self.split_tags(st, obj):
+                if isinstance(ov, VStr):
+                    out.extend(self.get_slice(s, ov, lo, hi, step))
+                elif isinstance(ov, (VU, VOpaque)):
+                    args = [ov] + [x for x in (lo, hi) if x is not None]
+                    out.extend(self.opaque_call(s, "getslice", args, may_raise=("TypeError",), pure=True))
+                else:
+                    out.append(self.raised(s, "TypeError", "object is not subscriptable"))
+            return out
         raise Unsupported(f"slice of {type(obj).__name__}")
 
     # dict with concrete keys + optional symbolic remainder
